@@ -441,7 +441,7 @@ class C20(Property):
                     "maxstmts": rng.choice([2, 2, 4, 4, 7, 9])}
             # "every legal position": line comments / comments followed by a line break also inside
             # constructs the formatter prints on one line (finding family F22)
-            inl = 2 if (self._on(F22) and rng.random() < 0.25) else 1
+            inl = 2 if (self._on(F22) and rng.random() < 0.35) else 1
             if inl == 2:
                 src = c20gen.generate(rng, opts, odd=rng.choice([0.15, 0.3, 0.5]), pc=rng.choice([0.15, 0.3, 0.45]), inline=2)
             else:
@@ -577,9 +577,9 @@ class C20(Property):
 
     def _variants(self, case, obs, kids):
         """Candidate explanations of a failing valid program: (ids, repaired source).
-          F22  comment carrying a line break in a gap that the committed table lists as printed on
-               one line (only idempotence may fail), or in a gap recorded with mode noparse/meaning
-               (then that mode may be observed too)                           -> comment removed
+          F22  comment carrying a line break in a gap (ctx|prev|next) for which the committed table
+               records a failure of the pinned tree (only idempotence may fail), or with the exact
+               key recorded with mode noparse/meaning (then that mode too)    -> comment removed
         (the former families F17 / F24 / F25 -- white space inside comments and string literals
         rewritten by the layout pass -- are repaired in go-zero (96e6290): their shapes stay in the
         generator and a regression is a VIOLATION)
@@ -591,11 +591,16 @@ class C20(Property):
         keys = c20gaps.comment_keys(obs["toks"], cmts)
         fam = {}
         if F22 in kids:
-            # the registered family: a comment that carries a line break between two tokens the
-            # pinned formatter prints on one line (committed list of such gaps) -- idempotence;
-            # "does not parse" / "meaning changed" only for the exact keys recorded with that mode
+            # the registered family, pinned by the committed table: a comment that carries a line
+            # break in one of the gaps (ctx|prev|next) for which a failure is RECORDED for the pinned
+            # tree.  Idempotence-only failures are excused for every form of comment in such a gap
+            # (their exact form depends on the surrounding layout); "does not parse" / "meaning
+            # changed" only for the exact key recorded with that mode.  A gap in which the pinned
+            # tree handles comments correctly (e.g. between the '}' of an inline struct and the tag
+            # of the member) excuses nothing.
             ix = [i for i, k in enumerate(keys)
-                  if (c20gaps.carries_break(k) and c20gaps.one_line(k)) or c20gaps.modes(k) & {"idem", "noparse", "meaning"}]
+                  if c20gaps.modes(k) & {"idem", "noparse", "meaning"} or
+                  (c20gaps.carries_break(k) and c20gaps.one_line(k) and c20gaps.gap_modes(k))]
             if ix:
                 fam[F22] = {i: " " for i in ix}
         if not fam:
@@ -604,7 +609,7 @@ class C20(Property):
         allowed = set()
         for i in fam[F22]:
             allowed |= c20gaps.modes(keys[i]) & {"idem", "noparse", "meaning"}
-            if c20gaps.carries_break(keys[i]) and c20gaps.one_line(keys[i]):
+            if c20gaps.gap_modes(keys[i]):
                 allowed.add("idem")
         if not ms <= allowed:
             return []
